@@ -29,6 +29,12 @@ ASSUMPTIONS = [
     '"unsupported or unroutable request" is read at CIP level (unsupported service code, unknown tag/object inside SendRRData); '
     'frames with an unknown *encapsulation command* are not generated here (the simulator closes the connection without a '
     'reply; C08 covers "reply or close")',
+    'routed clause: simulator A (this process, UCMM.route = {"1/1": relay}) forwards Unconnected Sends whose route path starts with '
+    '1/1 to a second simulator B (subprocess of the same working tree) through the fault-injecting relay; the relay holds the '
+    'reply to one forwarded request back for longer than that request\'s own Unconnected Send timeout (256 ms); the router '
+    'must refuse that request with a non-zero encapsulation status, and every later routed request (new session) must be '
+    'answered by the reply to itself (service code, context, and B\'s values); if the reply arrived in time after all the case '
+    'is judged as an ordinary exchange',
     'client-context clause: the library\'s own client writes 1..8 reads with explicit sender contexts (0..8 bytes, NUL bytes '
     'in any position) before reading any reply; collect() must report every reply, in order, under its request\'s context '
     'with only the documented right-hand NUL padding removed',
@@ -516,13 +522,196 @@ def pred_client(case, stats):
                    expected={'contexts': [w[0].hex() for w in want], 'status': 0})
 
 
-CLAUSES = {'sequence': pred, 'client-context': pred_client}
+# -- clause: routed requests (simulator A forwards Unconnected Sends for route-path hop 1/1 to a second simulator B)
+
+_RIG = {}
+
+
+def rig():
+    import os
+    from .. import router
+    if _RIG.get('pid') != os.getpid():
+        if any(k.startswith('c06-') and v[0] == os.getpid() for k, v in sim._PER_PROCESS.items()):
+            raise common.HarnessError('this process already runs a C06 simulator')
+        sim.TcpServer._started = False
+        _RIG.clear()
+        _RIG.update(pid=os.getpid(), rig=router.Rig())
+        import atexit
+        atexit.register(_RIG['rig'].close)
+    return _RIG['rig']
+
+
+def routed_frame(handle, req, ctx, ticks):
+    from .. import router
+    path = [{'symbolic': req['tag']}, {'element': req['elem']}]
+    if req['kind'] == 'read':
+        msg = rc.req_read_tag(path, req['count'])
+    elif req['kind'] == 'readf':
+        msg = rc.req_read_frag(path, req['count'], 0)
+    else:
+        msg = rc.req_write_tag(path, 'DINT' if req['tag'] == 'RB' else 'INT', req['values'])
+    # Unconnected Send timeout = 2**priority * ticks ms: the router waits that long for the routed target
+    return rc.rr_frame(handle, rc.unconnected_send(msg, route_path=[router.ROUTE_HOP], priority=5, timeout_ticks=ticks), ctx), msg[0] | 0x80
+
+
+def pred_routed(case, stats):
+    """case = {'before': [req...], 'stalled': req, 'after': [req...], 'hold': seconds}: requests routed through A to B.  The reply
+    to `stalled` is held back by the relay longer than its Unconnected Send timeout; A must answer it with a non-zero encapsulation
+    status -- and every later routed request, on any session, must still be answered with the reply to *itself*."""
+    import time
+    r = rig()
+    b_vals = {k: list(v) for k, v in r.b_values.items()}
+    stats.case(case, nontrivial=bool(case['after']), classes=['routed:before:%d' % len(case['before']), 'routed:after:%d' % len(case['after'])])
+
+    def exchange(sess_sock, handle, req, ctx, ticks, wait):
+        frame, want_service = routed_frame(handle, req, ctx, ticks)
+        sess_sock.sendall(frame)
+        fr, _, eof = sim.recv_frames(sess_sock, 1, wait)
+        return fr[0] if fr else None, want_service, eof
+
+    def judge(tag, req, rpy, want_service, ctx):
+        if rpy is None:
+            stats.fail('routed', 'routed:no-reply', case, observed={'at': tag, 'request': req}, expected='one reply frame')
+            return False
+        e = rc.dec_encap(rpy)
+        if e['context'] != ctx:
+            stats.fail('routed', 'routed:sender-context-not-echoed', case, observed={'at': tag, 'sent': ctx.hex(), 'got': e['context'].hex()}, expected='the request\'s context')
+            return False
+        if e['status'] != 0:
+            stats.fail('routed', 'routed:request-refused', case, observed={'at': tag, 'status': e['status'], 'request': req}, expected='a routed reply')
+            return False
+        try:
+            _, m = rc.dec_rr_reply(rpy)
+            mr = rc.dec_mr_reply(m)
+        except rc.RefDecodeError as exc:
+            stats.fail('routed', 'routed:reply-undecodable', case, observed={'at': tag, 'error': str(exc)}, expected='a decodable reply')
+            return False
+        if mr['service'] != want_service:
+            stats.fail('routed', 'routed:reply-answers-another-request', case,
+                       observed={'at': tag, 'request': req, 'reply_service': mr['service'], 'reply_data': bytes(mr['data']).hex()[:60]},
+                       expected={'service': want_service})
+            return False
+        if req['kind'] in ('read', 'readf') and mr['status'] == 0:
+            t = 'DINT' if req['tag'] == 'RB' else 'INT'
+            try:
+                vals = rc.dec_read_reply(mr, t)[1]
+            except rc.RefDecodeError as exc:
+                vals = 'undecodable as %s: %s' % (t, exc)
+            want = b_vals[req['tag']][req['elem']:req['elem'] + req['count']]
+            if vals != want:
+                stats.fail('routed', 'routed:reply-answers-another-request', case,
+                           observed={'at': tag, 'request': req, 'values': vals}, expected={'values': want})
+                return False
+        if req['kind'] == 'write' and mr['status'] == 0:
+            for i, v in enumerate(req['values']):
+                b_vals[req['tag']][req['elem'] + i] = v
+        return True
+
+    s1 = sim.TcpSession(r.a)        # (the relay keeps its list of connections: the router's connection to it outlives a case)
+    n = 0
+    try:
+        for req in case['before']:
+            n += 1
+            ctx = b'rt%06d' % n
+            rpy, want, _ = exchange(s1.sock, s1.handle, req, ctx, 157, 10.0)
+            if not judge('before', req, rpy, want, ctx):
+                return
+        # the reply to the next forwarded request is held back by the relay for longer than the request's own timeout (256 ms)
+        if not r.relay.conns:
+            # nothing was forwarded yet: one transparent exchange opens the route connection
+            rpy, want, _ = exchange(s1.sock, s1.handle, {'kind': 'read', 'tag': 'RW', 'elem': 0, 'count': 1}, b'rtopen\0\0', 157, 10.0)
+            if rpy is None:
+                raise common.HarnessError('routed warm-up request not answered')
+        live = [c for c in r.relay.conns if not c.done.is_set()]
+        if not live:
+            rpy, want, _ = exchange(s1.sock, s1.handle, {'kind': 'read', 'tag': 'RW', 'elem': 0, 'count': 1}, b'rtopen\0\0', 157, 10.0)
+            live = [c for c in r.relay.conns if not c.done.is_set()]
+            if rpy is None or not live:
+                raise common.HarnessError('routed warm-up request did not open a route connection')
+        rconn = live[-1]
+        rconn.spec = {'dir': 's2c', 'kind': 'stall', 'at': len(rconn.s2c), 'hold': case['hold']}
+        rconn.released.clear()
+        n += 1
+        ctx = b'rt%06d' % n
+        rpy, want, eof = exchange(s1.sock, s1.handle, case['stalled'], ctx, 8, 10.0)
+        if rpy is None:
+            if not eof:
+                raise common.HarnessError('router did not answer the timed-out routed request within 10 s (inconclusive)')
+        else:
+            e = rc.dec_encap(rpy)
+            if e['status'] == 0:
+                # the reply made it in time after all (slow machine): nothing was stalled from the router's point of view
+                stats.count('routed:stall-not-effective')
+                judge('stalled-but-in-time', case['stalled'], rpy, want, ctx)
+                return
+            stats.count('routed:timed-out-request-refused-with-status-0x%02X' % e['status'])
+        rconn.released.wait(case['hold'] + 5.0)
+        time.sleep(0.1)
+        if case['stalled']['kind'] == 'write':
+            for i, v in enumerate(case['stalled']['values']):           # B executed it although its reply came too late
+                b_vals[case['stalled']['tag']][case['stalled']['elem'] + i] = v
+    finally:
+        s1.close()
+    s2 = sim.TcpSession(r.a)
+    try:
+        for req in case['after']:
+            n += 1
+            ctx = b'rt%06d' % n
+            rpy, want, _ = exchange(s2.sock, s2.handle, req, ctx, 157, 10.0)
+            if not judge('after-a-timed-out-routed-request', req, rpy, want, ctx):
+                return
+    finally:
+        s2.close()
+        # restore B's values for the next case
+        rb = sim.TcpSession(__import__('vp.router', fromlist=['_Addr'])._Addr(('127.0.0.1', r.b_port)))
+        for name, vals in r.b_values.items():
+            rb.send(rc.req_write_tag([{'symbolic': name}], 'DINT' if name == 'RB' else 'INT', vals))
+        rb.close()
+
+
+@st.composite
+def routed_req(draw):
+    tag = draw(st.sampled_from(['RB', 'RB', 'RW']))
+    L = 8 if tag == 'RB' else 4
+    e = draw(st.integers(0, L - 1))
+    # (no Read Tag Fragmented: forwarded with an exhausted route path it travels bare, and a bare 0x52 is documented as
+    #  indistinguishable from an Unconnected Send)
+    kind = draw(st.sampled_from(['read', 'read', 'write']))
+    if kind == 'write':
+        k = draw(st.integers(1, min(2, L - e)))
+        return {'kind': kind, 'tag': tag, 'elem': e, 'values': [draw(st.integers(-30000, 30000)) for _ in range(k)]}
+    return {'kind': kind, 'tag': tag, 'elem': e, 'count': draw(st.integers(1, L - e))}
+
+
+routed_cases = st.builds(lambda b, s_, a, h: {'before': b, 'stalled': s_, 'after': a, 'hold': h},
+                         st.lists(routed_req(), max_size=2), routed_req(), st.lists(routed_req(), min_size=1, max_size=3),
+                         st.sampled_from([0.8, 1.2]))
+
+
+CLAUSES = {'sequence': pred, 'client-context': pred_client, 'routed': pred_routed}
 STRATEGIES = {'sequence': lambda key: cases(*key) if isinstance(key, (tuple, list)) else cases(key),
-              'client-context': lambda key: st.fixed_dictionaries({'contexts': client_contexts})}
+              'client-context': lambda key: st.fixed_dictionaries({'contexts': client_contexts}),
+              'routed': lambda key: routed_cases}
 SIZE_LIMIT = 150
 
 
+def shard_routed(job):
+    _, seed, i, n = job
+    s = Stats()
+    try:
+        rig()
+    except RuntimeError as exc:
+        raise common.HarnessError('router rig: %s' % exc)
+    try:
+        common.hyp_run(s, routed_cases, pred_routed, n, common.shard_seed(seed, 800 + i), 'routed', PID, skey=None)
+    finally:
+        _RIG['rig'].close()
+    return s
+
+
 def shard(job):
+    if job[0] == 'routed':
+        return shard_routed(job)
     seed, i, n, k = job
     # every second shard runs against a simulator configured with --route-path 1/0 (requests then carry that route path)
     routed = i % 4 == 1
@@ -537,7 +726,7 @@ def shard(job):
 
 def run(tier, seed):
     if tier == 'thorough':
-        jobs = [(seed, i, 250, 40) for i in range(32)]
+        jobs = [('routed', seed, i, 25) for i in range(4)] + [(seed, i, 250, 40) for i in range(32)]
     else:
-        jobs = [(seed, i, 60, 20) for i in range(16)]
+        jobs = [('routed', seed, i, 5) for i in range(2)] + [(seed, i, 60, 20) for i in range(16)]
     return common.parallel(shard, jobs)
